@@ -517,6 +517,11 @@ func c12Scenarios(thorough bool) []*scenario {
 	}
 	add("bl/optout/preserve-rule", polBalloons, machine8(), []cfgSpec{blCfg("pres", defs, preserve)},
 		[]podSpec{nsPod("p", "mem", g2Pin8, nil), nsPod("a", "mem", tG2, nil), nsPod("b", "mem", tM3G, nil)}, menu{stop: true, remove: true, sync: true, reconf: []int{0}}, nil)
+	// the preserve rule arrives by a configuration update that changes nothing else, while the matching container already
+	// sits in a balloon that other containers keep inflating and deflating
+	grow := []*blcfg.BalloonDef{{Name: "grow", Namespaces: []string{"grow"}, MinCpus: 1, MaxBalloons: 1, ShareIdleCpusInSame: blcfg.CPUTopologyLevelSystem}}
+	add("bl/optout/preserve-rule-added-later", polBalloons, machine8(), []cfgSpec{blCfg("nopres", grow), blCfg("pres", grow, preserve)},
+		[]podSpec{nsPod("p", "grow", g2Pin8, nil), nsPod("a", "grow", tG2, nil), nsPod("b", "grow", tG1, nil)}, menu{stop: true, reconf: []int{0, 1}}, nil)
 	add("bl/optout/type-pinMemory-off", polBalloons, machine8(), []cfgSpec{blCfg("nomem", defs)},
 		[]podSpec{nsPod("p", "nomem", m3Pin8, nil), nsPod("a", "mem", tM3G, nil), nsPod("b", "mem", tM3G, nil)}, menu{stop: true, remove: true, sync: true}, nil)
 	defs2 := []*blcfg.BalloonDef{
@@ -611,6 +616,13 @@ func c13Scenarios(thorough bool) []*scenario {
 	}
 	add("bl/reconf/G2-B500-KS", polBalloons, machine16(), blCfgs,
 		[]podSpec{nsPod("x", "a", tG2, nil), nsPod("y", "b", tB500, nil), nsPod("ks", "kube-system", tB200, nil)}, menu{stop: true})
+	// containers that name their balloon type by annotation, next to updates that are refused by validation and carry
+	// OTHER type names than the configuration in force (one that exists only there, one that is missing there)
+	otherTypes := []*blcfg.BalloonDef{{Name: "a", Namespaces: []string{"a"}, MinCpus: 3, MaxCpus: 2}, {Name: "gamma", MinCpus: 1}}
+	otherTypesLoad := []*blcfg.BalloonDef{{Name: "gamma", MinCpus: 1, Loads: []string{"membw"}}, {Name: "b", Namespaces: []string{"b"}, MaxCpus: 1}}
+	add("bl/reconf/annotated/b-gamma-a", polBalloons, machine16(),
+		[]cfgSpec{blCfg("base", base), blCfg("other-types:minCPUs>maxCPUs", otherTypes), blCfg("other-types:undefined-load-class", otherTypesLoad)},
+		[]podSpec{nsPod("u", "default", tG1, map[string]string{annBalloon: "b"}), nsPod("w", "default", tB500, map[string]string{annBalloon: "gamma"}), nsPod("x", "a", tG1, nil)}, menu{stop: true})
 	blCfgs2 := []cfgSpec{
 		blCfg("base", base, blIdleClass("idle")),
 		blCfg("classes-only", base, blIdleClass("lazy")),
